@@ -12,7 +12,7 @@ these indexes, which the code computes by *arithmetic* (`parent.start_index + ma
 the token's text is in the source, for every source.
 Sentence 2 ("every Liquid error raised while parsing carries a position inside its own source, and its
 formatted message … can be produced without error"): `error_context_total`, `detailed_message_total`;
-the sentence fails for errors raised on the shared EOF token: `eof_no_position_counterexample`.
+errors raised at the end of a stream used to carry index −1 (`negative_index_formats_bare`); fixed in the tree.
 -/
 namespace LiquidVerif.C20
 open LiquidVerif.SpanLex
@@ -165,14 +165,13 @@ theorem detailed_message_partial (source : List Char) (i : Int) (h : i < 0 ∨ i
     · obtain ⟨c, hc⟩ := detailed_message_total source i (by omega) h
       rw [hc]; simp
 
-/-- … but the full sentence "every parse error carries a position inside its own source" does not hold:
-the errors raised on `TokenStream.eof = Token(TOKEN_EOF, TOKEN_EOF, -1, "")` ("expected …, found end of
-expression") format without any position. -/
-theorem eof_no_position_counterexample :
-    ¬ (∀ (source : List Char) (i : Int), ∃ c, detailedMessage source i = .located c) := by
-  intro h
-  obtain ⟨c, hc⟩ := h [] (-1)
-  simp [detailedMessage] at hc
+/-- … a token with a negative index (the old shared `TokenStream.eof` sentinel, index −1) formats as the
+bare message without any position: this is why the end-of-stream token had to be given the position of
+the stream's last token (fix in `liquid/stream.py`; stream `errors` now finds no parse error without a
+position). -/
+theorem negative_index_formats_bare (source : List Char) (i : Int) (h : i < 0) :
+    detailedMessage source i = .bare := by
+  simp [detailedMessage, h]
 
 example : errorContext "ab\r\ncd\n x".toList 7 = some ⟨3, 0, "cd".toList, " x".toList, []⟩ := by decide +kernel
 example : errorContext "ab".toList 2 = none := by decide +kernel
